@@ -8,6 +8,8 @@ import common
 import gen
 import pyreadlib
 
+TWINS = ['label', 'pred']      # harness/twins.py: which part of a twin text carries the difference
+
 N = {"quick": 150, "thorough": 4000}
 LEAN_MODULE = "Pyab.Properties.C13_full"
 
